@@ -179,7 +179,9 @@ func (r *bungeeCordMessageResponder) prepareForwardMessage(in io.Reader) (forwar
 	}
 
 	forwarded := new(bytes.Buffer)
-	forwarded.WriteString(channel)
+	// The channel is a length-prefixed (modified UTF-8) string, as BungeeCord and
+	// Velocity write it with writeUTF; receivers read it with readUTF.
+	_ = util.WriteUTF(forwarded, channel)
 	_ = util.WriteInt16(forwarded, messageLen)
 	forwarded.Write(msg)
 	return forwarded.Bytes()
